@@ -33,6 +33,9 @@ CHECKS = {
  "C16": dict(design="§6 C16", engine="XH",
              technique="CrossHair (z3) symbolic execution of init_from_template / ZorgTemplateManager.render / _build_template_in_dir / process_var_map over an in-memory directory and template environment",
              note="stubs: in-memory FS and template environment (jinja2 trusted, real in replay), strptime model; pattern maps, targets, variable maps from finite menus"),
+ "C17": dict(design="§6 C17", engine="XH",
+             technique="CrossHair (z3) symbolic execution of run_action_open and the _open_* functions over lines built from prefix/word/punctuation menus, against an oracle written from the statement, plus the option-k relational clause",
+             note="stubs: in-memory FS, captured print, index lookups from a harness index (real SQLite in replay), init_from_template/subprocess/.zoq refresh recorded; cite keys and named URLs outside"),
 }
 NA = {
  "C13": "crash points between external effects (SQLite transactions, OS file writes) cannot be made symbolic: the effects are C-level/ORM internals; with them concrete a symbolic crash index is realised at the first effect, which is enumeration of faulted runs, a different technique (DESIGN.md §8)",
